@@ -1211,6 +1211,14 @@ def c12_verdicts(r, trace, root, inp, viol, cnt, label):
     return "ok"
 
 
+def tree_dirs(root):
+    out = set()
+    for d, sub, _ in os.walk(root):
+        for x in sub:
+            out.add(os.path.relpath(os.path.join(d, x), root))
+    return {x for x in out if x != ".copia" and not x.startswith(".copia/")}
+
+
 def tree_without_control(root):
     return {k: v for k, v in walk_root(root).items()}
 
@@ -1238,6 +1246,15 @@ def _c12_worker(args):
         if pre_exists:
             os.makedirs(root)
             open(os.path.join(root, "keep"), "w").write("keep me")
+            if rng.chance(2, 3):
+                # a lived-in hub: staging files stranded by killed sessions, a user's own file with the reserved
+                # suffix, a conflict-copy, an empty directory, control-directory contents
+                for rel, body in (("data/b.bin.4242.copia-tmp", b"stranded staging bytes"), ("sub/report.copia-tmp", b"a user's own file"), ("keep.7.copia-tmp", b""), ("a.conflict-0123456789ab", b"an earlier loser"), (".copia/old.lock", b""), ("emptydir/.placeholder", None)):
+                    full = os.path.join(root, rel)
+                    os.makedirs(os.path.dirname(full), exist_ok=True)
+                    if body is not None:
+                        open(full, "wb").write(body)
+                cnt("sessions_on_a_lived_in_tree")
         found = []
 
         def viol(sig, det):
@@ -1312,6 +1329,7 @@ def _c12_worker(args):
             continue
         data = inp["data"]
         before = walk_root(root) if pre_exists else {}
+        dirs_before = tree_dirs(root) if pre_exists else set()
         npieces = rng.range(1, 4)
         pieces = None
         if npieces > 1 and len(data) > 1:
@@ -1340,6 +1358,8 @@ def _c12_worker(args):
         if inp["invalid"]:
             if after != before:
                 viol("C12|serve|tree-changed-without-a-valid-request|" + inp["cls"], dict(label, diff=sorted(set(after.items()) ^ set(before.items()))[:4]))
+            elif pre_exists and tree_dirs(root) - {".copia"} != dirs_before - {".copia"}:
+                viol("C12|serve|directories-changed-without-a-valid-request|" + inp["cls"], dict(label, diff=sorted(tree_dirs(root) ^ dirs_before)[:4]))
             cnt("inputs_invalid_by_construction")
         else:
             # whatever happened, listable paths hold complete verified content only
@@ -1347,6 +1367,8 @@ def _c12_worker(args):
                 if rel.endswith(STAGING):
                     continue
                 if rel == "keep" and idv == ident(b"keep me"):
+                    continue
+                if before.get(rel) == (idv, size):
                     continue
                 if idv == ident(inp["content"]) and (rel == "a" or rel.startswith("a.conflict-")):
                     continue
